@@ -156,6 +156,34 @@ def vh_json(args, **kw):
 
 
 # --------------------------------------------------------------------------------------------
+# Apalache (inductive invariants: unbounded safety of small typed specifications)
+
+def apalache_inductive(module, init="Init", ind_init="IndInit", inv="IndInv", timeout=600):
+    """Init => Inv (length 0) and IndInit /\\ Next => Inv' (length 1) with Apalache, in a scratch copy of spec/.
+    Returns {"base": secs, "step": secs}; raises Broken when Apalache fails or reports a counterexample (the committed
+    specification is then wrong: a framework error, never a verdict about the code)."""
+    _TLC_N[0] += 1
+    d = workdir("apa%d" % _TLC_N[0])
+    for f in os.listdir(SPEC):
+        if f.endswith(".tla"):
+            shutil.copyfile(os.path.join(SPEC, f), os.path.join(d, f))
+    res = {}
+    for label, args in (("base", ["--init=" + init, "--inv=" + inv, "--length=0"]),
+                        ("step", ["--init=" + ind_init, "--inv=" + inv, "--length=1"])):
+        t0 = time.time()
+        try:
+            r = subprocess.run(["apalache-mc", "check", "--out-dir=" + os.path.join(d, "out")] + args + [module + ".tla"], cwd=d,
+                               capture_output=True, text=True, timeout=timeout)
+        except subprocess.TimeoutExpired:
+            raise Broken("Apalache timed out on %s (%s)" % (module, label))
+        out = r.stdout + r.stderr
+        if "EXITCODE: OK" not in out:
+            raise Broken("Apalache did not establish the %s case of %s!%s:\n%s" % (label, module, inv, out[-3000:]))
+        res[label] = round(time.time() - t0, 1)
+    return res
+
+
+# --------------------------------------------------------------------------------------------
 # TLC
 
 _TLC_N = [0]
